@@ -345,7 +345,13 @@ func (x *c15Ctx) report(part string, o c15Obs, cs c15Case, rerun func() c15Obs) 
 		return
 	}
 	x.reported[o.key] = true
-	if x.c.Confirm(o.key, func() string { return rerun().key }) {
+	confirm := x.c.Confirm
+	if strings.HasPrefix(o.key, "alloc:") {
+		// an allocation figure is a measurement taken while the node's own goroutines run: one that
+		// does not show again in the re-runs is noise (recorded as transient), not a harness fault
+		confirm = x.c.ConfirmSampling
+	}
+	if confirm(o.key, func() string { return rerun().key }) {
 		x.c.Violate(part, o.key, o.desc+"\n input: "+cs.Baseline+" / "+cs.Mutation, cs)
 	}
 }
